@@ -511,6 +511,18 @@ def arity(repo: Repo, rep, P: str, mc):
                 if sh_[0] == "tup":
                     sites += 1
                     _check_len(rep, P, rel, f"{rel}:MultiCtl", norm(c)[:100], len(sh_[1]), need, c)
+            elif isinstance(a, (ast.Name, ast.Attribute)):
+                # Mapping(self._UNMAPPED): a named tuple constant of the class / its nested classes / the module
+                val_ = None
+                for scope in [mc] + list(mc.nested.values()):
+                    try:
+                        val_ = repo.fold(a, ci=scope, sf=mc.file)
+                        break
+                    except Exception:
+                        val_ = None
+                if isinstance(val_, tuple):
+                    sites += 1
+                    _check_len(rep, P, rel, f"{rel}:MultiCtl", norm(c)[:100], len(val_), need, c)
     # (b) tuples appended to the list that macro passes as mappings=
     macro = mc.methods.get("macro")
     if macro is None:
@@ -877,13 +889,21 @@ def unset_mapping(repo: Repo, rep, P: str, mc):
     g = CFG(loop, loop_body=True)
     dom = g.dominators()
     uses = []
+    subjects: set = set()          # E in `…[E.controller - 1]`: the mapping whose controller number indexes the target's controllers
     for n in g.nodes:
         if n.kind == "stmt" and n.ast is not None:
             for x in ast.walk(n.ast):
-                if isinstance(x, ast.Subscript) and "mapping.controller - 1" in norm(x.slice):
+                if isinstance(x, ast.Subscript) and isinstance(x.slice, ast.BinOp) and isinstance(x.slice.op, ast.Sub) and norm(x.slice.right) == "1" \
+                        and isinstance(x.slice.left, ast.Attribute) and x.slice.left.attr == "controller":
+                    subjects.add(norm(x.slice.left.value))
                     uses.append(n)
                 if isinstance(x, ast.Call) and norm(x.func) == "setattr":
                     uses.append(n)
+    if len(subjects) != 1:
+        rep.inconclusive(f"{P}.R3", construct, f"subjects {sorted(subjects)}", "the controller look-up `…[<mapping>.controller - 1]` was not found in one form",
+                         f"{rel}:{loop.lineno}")
+        return
+    subj = next(iter(subjects)).replace(" ", "")
     uses = list({u.id: u for u in uses}.values())
     if not uses:
         rep.inconclusive(f"{P}.R3", construct, "", "no controller look-up / target write found", f"{rel}:{loop.lineno}")
@@ -897,8 +917,9 @@ def unset_mapping(repo: Repo, rep, P: str, mc):
             t = norm(dn.ast).replace(" ", "")
             tsucc = [m for m, lab in g.succ[d] if lab == "true"]
             fsucc = [m for m, lab in g.succ[d] if lab == "false"]
-            zero_tests = ("mapping.controller==0", "notmapping.controller", "mapping.controller<1", "mapping.controller<=0")
-            nonzero_tests = ("mapping.controller", "mapping.controller!=0", "mapping.controller>0", "mapping.controller>=1")
+            zero_tests = (f"{subj}.controller==0", f"not{subj}.controller", f"{subj}.controller<1", f"{subj}.controller<=0", f"0=={subj}.controller")
+            nonzero_tests = (f"{subj}.controller", f"{subj}.controller!=0", f"{subj}.controller>0", f"{subj}.controller>=1", f"0!={subj}.controller",
+                             f"0<{subj}.controller")
             if t in zero_tests and fsucc:
                 # use must be reachable only through the false branch
                 if nid in g.reachable(fsucc[0], avoid={d}) and not (tsucc and nid in g.reachable(tsucc[0], avoid={d})):
@@ -912,7 +933,7 @@ def unset_mapping(repo: Repo, rep, P: str, mc):
         if gd:
             rep.ok(f"{P}.R3", construct, u.text()[:90], f"only reached when the mapping names a controller (`{gd}`)")
         else:
-            what = "indexes the target's controllers with mapping.controller − 1" if "mapping.controller - 1" in u.text() else "writes to the target"
+            what = "indexes the target's controllers with mapping.controller − 1" if ".controller - 1" in u.text() else "writes to the target"
             rep.violation(f"{P}.R3", construct, u.text()[:100],
                           f"this statement {what} without first testing that the mapping names a controller: for an unset "
                           "mapping (controller 0) index −1 selects the target's LAST controller and it is overwritten. "
